@@ -33,7 +33,7 @@ type cfg struct {
 	T      int      `json:"threshold"`
 	Points string   `json:"points"`
 	SK     string   `json:"sk"`
-	Proto  int      `json:"proto"` // number of protocol-level runs (CKG + collective decryption)
+	Proto  int      `json:"proto"`         // number of protocol-level runs (CKG + collective decryption)
 	Ext    string   `json:"ext,omitempty"` // non-empty: case of the coverage-audit family (ext.go)
 }
 
